@@ -218,6 +218,28 @@ def run(rep: common.Report, tier: str, seed: int, replay=None) -> int:
     specs.append(dict(shape="ellipse", holes=1, terminals=0, smooth=0, max_edge_length=0.9, xi=0.5, remesh_at=(7.0, -3.0), no_refine=1.0))
     specs.append(dict(shape="box", holes=0, terminals=2, smooth=0, max_edge_length=0.9, xi=0.5, remesh_at=(-4.0, 9.0), no_refine=0.0))
     specs.append(dict(shape="union", holes=1, terminals=0, smooth=2, max_edge_length=0.9, xi=0.5, remesh_at=(12.0, 12.0), no_refine=1.0))
+    # plain rectangles with the default mesh: the two triangles at a corner are then often right triangles whose hypotenuses are the
+    # boundary edges (both circumcentres ON the boundary-edge midpoints: locally Delaunay, not encroached) - extremal cells
+    import tdgl as _tdgl
+    from tdgl.geometry import box as _box
+    ncorner = 0
+    for pi_, (W_, H_, n_, xi_) in enumerate(((3.0, 3.0, 40, 0.5), (6.0, 3.0, 40, 0.5), (5.0, 4.0, 40, 0.5), (10.0, 4.0, 60, 0.5), (4.0, 4.0, 40, 1.0))):
+        dvp = _tdgl.Device(f"plain_{pi_}", layer=_tdgl.Layer(coherence_length=xi_, london_lambda=2.0, thickness=0.1),
+                           film=_tdgl.Polygon("film", points=_box(W_, H_, points=n_)), length_units="um")
+        try:
+            dvp.make_mesh(**({"max_edge_length": 0.5} if pi_ == 4 else {}))
+        except Exception:  # noqa: BLE001
+            rep.coverage["plain_devices_not_meshed"] = rep.coverage.get("plain_devices_not_meshed", 0) + 1
+            continue
+        spec_p = dict(shape=f"plain box {W_}x{H_}, {n_} outline points", holes=0, terminals=0, smooth=0, max_edge_length="default", xi=xi_)
+        _, _, _, okm_p = check_mesh(rep, dvp, spec_p, 900 + pi_)
+        Sx = dvp.mesh.sites * xi_
+        corner = (np.abs(np.abs(Sx[:, 0]) - W_ / 2) < 1e-9) & (np.abs(np.abs(Sx[:, 1]) - H_ / 2) < 1e-9)
+        ncorner += int(np.sum(corner & okm_p))
+        rep.nontrivial(("plain", W_, H_, n_))
+    rep.coverage["corner_cells_in_area_check"] = ncorner
+    if ncorner == 0:
+        rep.not_shown("generator too weak: no corner cell of a plain rectangle qualified for the cell-area comparison", {})
     texts, infos = [], []
     for mi, spec in enumerate(specs):
         try:
